@@ -49,6 +49,10 @@ inline int g_dyn_alias[NK]; // which alias objects of class i carry
 #define TAG_dfr 1
 #define HX_KEEPHASH 1
 #endif
+#if defined(TAG_prc)
+#define TAG_prj 1
+#define HX_CHECKED 1
+#endif
 #if defined(TAG_int) || defined(TAG_prj) || defined(TAG_dfr)
 #define HX_CUSTOM_RTTI 1
 template<class T>
@@ -91,18 +95,21 @@ struct custom_rtti_base {
 };
 #if defined(TAG_prj)
 struct custom_rtti : policy::rtti, custom_rtti_base {
+    using custom_rtti_base::type_name;
     static type_id type_index(type_id type) {
         return type / 2; // two ids per class
     }
 };
 #elif defined(TAG_dfr)
 struct custom_rtti : policy::deferred_static_rtti, custom_rtti_base {
+    using custom_rtti_base::type_name;
     static type_id type_index(type_id type) {
         return type;
     }
 };
 #else
 struct custom_rtti : policy::rtti, custom_rtti_base {
+    using custom_rtti_base::type_name;
     static type_id type_index(type_id type) {
         return type;
     }
@@ -143,6 +150,9 @@ struct P : policy::release::rebind<P>::replace<policy::rtti, custom_rtti>::
 struct P : policy::release::rebind<P>::replace<policy::rtti, custom_rtti>::
                remove<policy::type_hash> {};
 #define HX_TAG "prn"
+#elif defined(TAG_prj) && defined(HX_CHECKED)
+struct P : policy::debug::rebind<P>::replace<policy::rtti, custom_rtti> {};
+#define HX_TAG "prc"
 #elif defined(TAG_prj)
 struct P : policy::release::rebind<P>::replace<policy::rtti, custom_rtti> {};
 #define HX_TAG "prj"
